@@ -8,6 +8,7 @@ import math
 import numpy as np
 
 import framework as fw
+from props import raylib
 
 LEVEL = "proof"
 USE_TWINS = True
@@ -63,6 +64,34 @@ def _mods():
     from pyrex import ice_model as im
     from pyrex.custom.layered_ice import LayeredIce, LayeredRayTracer
     return rt, im, LayeredIce, LayeredRayTracer
+
+
+
+def solve(run, tr, data, where, report=None):
+    """the solutions of a tracer, or None after the exception went through the shared classifier (K17 or violation)"""
+    import logging
+    logging.disable(logging.CRITICAL)
+    try:
+        with np.errstate(all="ignore"):
+            return list(tr.solutions)
+    except Exception as e:
+        raylib.tracer_exception(run, e, "crash", data, where, report)
+        return None
+    finally:
+        logging.disable(logging.NOTSET)
+
+
+def guarded(where):
+    """oracle(run, data, ...) whose tracer exceptions go through the shared classifier"""
+    def deco(fn):
+        def wrapped(run, data=None, *a, **kw):
+            try:
+                return fn(run, data, *a, **kw)
+            except Exception as e:
+                return raylib.tracer_exception(run, e, "crash", data if isinstance(data, dict) else {"input": data}, where)
+        wrapped.__name__ = fn.__name__
+        return wrapped
+    return deco
 
 
 def opt(v):
@@ -378,8 +407,10 @@ def corr_layered_uniform_stacks(run):
         B = [A[0] + d * math.cos(az), A[1] + d * math.sin(az), z1]
         tr = LayeredRayTracer(A, B, ice)
         tr.max_reflections = run.rng.choice([0, 1, 1, 2])
-        with np.errstate(all="ignore"):
-            sols = tr.solutions
+        sols = solve(run, tr, {"bounds": bounds, "n": [l.n for l in ice.layers], "above": ice._index_above,
+                               "below": ice._index_below, "A": A, "B": B}, "uniform stack (correspondence)")
+        if sols is None:
+            continue
         run.count("layered_stack_%d_layers" % nl)
         run.count("layered_stack_solutions", len(sols))
         for sol in sols:
@@ -559,9 +590,7 @@ def check_split(run, kind, report, data=None):
             [(s_.path_length, s_.tof, s_.fresnel, s_.emitted_direction, s_.received_direction) for s_ in ls]
     except Exception as e:
         run.case(("split", kind, str(params), tuple(A), tuple(B)), nontrivial=True)
-        report("split-crash", data, observed="%s: %s" % (type(e).__name__, str(e)[:300]),
-               what="tracing the cut medium raises")
-        return False
+        return raylib.tracer_exception(run, e, "split-crash", data, "tracing the cut / unsplit medium", report)
     run.case(("split", kind, str(params), tuple(A), tuple(B)), nontrivial=True,
              sample={"kind": "split/" + kind, "A": A, "B": B, "cuts": params["cuts"], "unsplit": len(us), "layered": len(ls)})
     run.count("split_%s_cuts_%d" % (kind, len(params["cuts"])))
@@ -717,7 +746,9 @@ def oracle_uniform(run, rt, ice, A, B, maxref, kind):
     tr.max_reflections = maxref
     data = {"ice": [ice.n, lo, hi, ice._index_above, ice._index_below], "A": A, "B": B, "max_reflections": maxref}
     inside = lo <= A[2] <= hi and lo <= B[2] <= hi
-    sols = tr.solutions
+    sols = solve(run, tr, data, "uniform tracer")
+    if sols is None:
+        return
     if bool(tr.exists) != (len(sols) > 0) or bool(tr.exists) != inside:
         run.fail_input("uniform-exists", data, observed=[bool(tr.exists), len(sols)], expected=inside,
                        what="UniformRayTracer.exists / solutions disagree with 'both endpoints inside the range'")
@@ -811,6 +842,9 @@ def oracle_layered_chain(run, tr, sols, data):
         sp = sol.paths
         walk = [ice.layers.index(s.ice) for s in sp]
         d = dict(data, walk=walk)
+        # the residual of the launch-angle root (closed-form jitter of exponential legs, K9 of C02) ends up in the last
+        # leg, whose direction is taken from its end points: 5 x noise [m] on directions of legs >= 1.5 m
+        dtol = 1e-7 + 5 * cancellation_noise(sol)
         if np.any(np.asarray(sp[0].from_point) != A) or np.any(np.asarray(sp[-1].to_point) != B):
             run.fail_input("layered-ends", d, observed=[fls(sp[0].from_point), fls(sp[-1].to_point)],
                            what="layered solution does not start at the source / end at the receiver")
@@ -830,13 +864,13 @@ def oracle_layered_chain(run, tr, sols, data):
             ha, hb = math.hypot(ra[0], ra[1]), math.hypot(eb[0], eb[1])
             if a.ice is b.ice:
                 # mirror reflection (or turning inside the layer): horizontal part kept, vertical part reversed
-                if np.max(np.abs(ra - eb * np.array([1, 1, -1]))) > 1e-7:
+                if np.max(np.abs(ra - eb * np.array([1, 1, -1]))) > dtol:
                     run.fail_input("layered-mirror", d, observed=[ra.tolist(), eb.tolist()],
                                    what="reflection at a layer boundary is not a mirror reflection")
                     return False
             else:
-                if abs(na * ha - nb * hb) > 1e-7 or np.sign(ra[2]) != np.sign(eb[2]) or \
-                        (ha > 1e-9 and np.max(np.abs(ra[:2] / ha - eb[:2] / max(hb, 1e-300))) > 1e-6):
+                if abs(na * ha - nb * hb) > 2 * dtol or np.sign(ra[2]) != np.sign(eb[2]) or \
+                        (ha > 1e-9 and np.max(np.abs(ra[:2] / ha - eb[:2] / max(hb, 1e-300))) > 1e-6 + 10 * dtol):
                     run.fail_input("layered-snell", d, observed=[na, ra.tolist(), nb, eb.tolist()],
                                    what="n sin(theta) is not continuous across a transmitting boundary")
                     return False
@@ -908,8 +942,9 @@ def corr_layered_gradient(run):
         ice = build_stack(desc)
         tr = LayeredRayTracer(desc["A"], desc["B"], ice)
         tr.max_reflections = desc["max_reflections"]
-        with np.errstate(all="ignore"):
-            sols = tr.solutions
+        sols = solve(run, tr, desc, "stack with exponential layers (correspondence)")
+        if sols is None:
+            continue
         nl = len(ice.layers)
         run.count("layered_gradient_stack")
         for sol in sols:
@@ -1035,7 +1070,13 @@ def special_split(run, which):
             if abs(zB - c) < 0.5:
                 zB = c - 0.7
         probe = rt.SpecializedRayTracer((0, 0, zA), (10, 0, zB), im.AntarcticIce())
-        rho = float(probe.direct_r_max) * (1 - 10 ** r.uniform(-3.5, -1.7))
+        try:
+            with np.errstate(all="ignore"):
+                horizon = float(probe.direct_r_max)
+        except Exception as e:
+            raylib.tracer_exception(run, e, "crash", {"zA": zA, "zB": zB}, "direct_r_max of the shadow-edge probe")
+            horizon = 300.0
+        rho = horizon * (1 - 10 ** r.uniform(-3.5, -1.7))
         data = {"kind": "antarctic", "params": {"cuts": cuts}}
     az = r.uniform(0, 2 * math.pi)
     A = [r.uniform(-300, 300), r.uniform(-300, 300), zA]
@@ -1083,6 +1124,7 @@ def critical_case(run):
                          "critical_angle_deg": math.degrees(theta_c), "launch_from_vertical_deg": math.degrees(theta)}}
 
 
+@guarded('critical-angle oracle')
 def oracle_critical(run, data):
     rt, im, LayeredIce, LayeredRayTracer = _mods()
     ice = build_stack(data)
@@ -1102,6 +1144,7 @@ def oracle_critical(run, data):
     return False
 
 
+@guarded('gradient stack oracle')
 def oracle_gradient_stack(run, desc):
     rt, im, LayeredIce, LayeredRayTracer = _mods()
     ice = build_stack(desc)
@@ -1155,6 +1198,7 @@ def forms_case(run, which):
             "max_reflections": r.choice([0, 1])}
 
 
+@guarded('container / dtype forms')
 def oracle_forms(run, data):
     """every form of handing over the same integer-valued endpoints gives the float64 result"""
     rt, im, LayeredIce, LayeredRayTracer = _mods()
@@ -1183,6 +1227,7 @@ def oracle_forms(run, data):
     return True
 
 
+@guarded('evaluate-replace-evaluate')
 def oracle_reuse(run, data):
     """one tracer object re-used: changing max_reflections or an endpoint after a query gives the result of a fresh
     tracer (evaluate - replace - evaluate), and reading the solutions twice gives the same objects' values"""
@@ -1252,6 +1297,7 @@ def bounce_walks(m, start, down, refl):
     return out
 
 
+@guarded('_potential_paths sequence')
 def oracle_potential(run, seq=None):
     """`_potential_paths` of tracers used one after the other on stacks with different numbers of layers but the same
     (start layer, end layer, max_reflections) against the exhaustive enumeration of the walks"""
@@ -1349,11 +1395,12 @@ def search(run, deep):
         d, az = 10 ** run.rng.uniform(1, 2.7), run.rng.uniform(0, 2 * math.pi)
         B = [A[0] + d * math.cos(az), A[1] + d * math.sin(az), z1]
         tr = LayeredRayTracer(A, B, ice)
-        with np.errstate(all="ignore"):
-            sols = tr.solutions
+        ddesc = {"bounds": bounds, "n": [l.n for l in ice.layers], "above": ice._index_above, "below": ice._index_below,
+                 "A": A, "B": B}
+        sols = solve(run, tr, ddesc, "uniform stack")
         run.case(("oracle-layered", tuple(bounds), tuple(A), tuple(B)), nontrivial=True)
-        oracle_layered_chain(run, tr, sols, {"bounds": bounds, "n": [l.n for l in ice.layers],
-                                             "above": ice._index_above, "below": ice._index_below, "A": A, "B": B})
+        if sols is not None:
+            oracle_layered_chain(run, tr, sols, ddesc)
 
     def report(kind, data, observed=None, expected=None, what=None):
         run.fail_input(kind, data, observed=observed, expected=expected, what=what)
@@ -1419,6 +1466,14 @@ def replay(run, data):
             lo_, hi_ = ice.valid_range
             on_bound = inp["A"][2] in (lo_, hi_) or inp["B"][2] in (lo_, hi_)
             oracle_uniform(run, rt, ice, inp["A"], inp["B"], inp["max_reflections"], "boundary" if on_bound else "general")
+    elif kind == "crash" and "layers" in inp and "expected" in inp:
+        oracle_critical(run, inp)
+    elif kind == "crash" and "layers" in inp:
+        oracle_gradient_stack(run, inp)
+    elif kind == "crash" and "ice" in inp and "max_reflections" in inp and "which" not in inp:
+        n, lo, hi, ab, be = inp["ice"]
+        oracle_uniform(run, rt, im.UniformIce(n, valid_range=(lo, hi), index_above=ab, index_below=be), inp["A"], inp["B"],
+                       inp["max_reflections"], "general")
     elif kind == "complete-critical":
         oracle_critical(run, inp)
     elif kind == "reuse":
@@ -1434,7 +1489,9 @@ def replay(run, data):
         ice = LayeredIce(layers, index_above=inp["above"], index_below=inp["below"])
         tr = LayeredRayTracer(inp["A"], inp["B"], ice)
         with np.errstate(all="ignore"):
-            oracle_layered_chain(run, tr, tr.solutions, {k: inp[k] for k in ("bounds", "n", "above", "below", "A", "B")})
+            sols_ = solve(run, tr, inp, "uniform stack (replay)")
+            if sols_ is not None:
+                oracle_layered_chain(run, tr, sols_, {k: inp[k] for k in ("bounds", "n", "above", "below", "A", "B")})
     elif kind == "potential-paths":
         oracle_potential(run, inp["sequence"])
     elif kind == "build-path":
